@@ -32,7 +32,7 @@ META = {
     "outside": ["WORKING_ADDITIONALLY / REMOVED entries (never written by base code)", "plotting back ends", "negative time indices", "log lengths beyond the bound"],
 }
 
-REQUIRED_COVERS = {"any": ["gantt:task:multi-run", "gantt:worker:absence-run", "extract:partial", "extract:out-of-range", "rows:ready", "lastdate"]}
+REQUIRED_COVERS = {"any": ["gantt:task:multi-run", "gantt:worker:absence-run", "extract:partial", "extract:out-of-range", "extract:absence-list-unrelated-to-log", "rows:ready", "lastdate"]}
 
 KINDS = {
     "task": (-1, 2),
@@ -159,6 +159,12 @@ def extract(p, ctx):
         seq = [p["o%d_%d" % (oi, i)] for i in range(ln)]
         o = _mk(kind, seq, ctx.symbolic, as_int=(oi % 2 == 0))
         o.ID = o.name = "x%d" % oi
+        # attributes that the log does not determine (a planned absence step, the live state) are arbitrary: the answer is about the log
+        if kind in ("worker", "facility") and ("ab%d" % oi) in p:
+            o.absence_time_list = [p["ab%d" % oi]]
+            ctx.cover("extract:absence-list-unrelated-to-log")
+        if ("cur%d" % oi) in p:
+            o.state = p["cur%d" % oi]
         objs.append(o)
         seqs.append(seq)
     times = [p["t%d" % i] for i in range(p["nt"])]
@@ -334,6 +340,11 @@ def obligations(tier, seed):
                         "params": [["o%d_%d" % (oi, i), lo, hi] for oi, ln in enumerate(lens) for i in range(ln)] + [["t%d" % i, 0, 4] for i in range(nt)],
                         "timeout": 120 if not thorough else 400,
                     })
+                    if nt in (1, 2) and lens == [2, 3]:
+                        extra = [["cur%d" % oi, lo, hi] for oi in range(len(lens))]
+                        if kind in ("worker", "facility"):
+                            extra += [["ab%d" % oi, 0, 3] for oi in range(len(lens))]
+                        obs.append(dict(obs[-1], name="extract-other-attrs/%s/lens=%s/code=%d/nt=%d" % (owner, lens, code, nt), params=obs[-1]["params"] + extra))
     # rows
     for kind, (lo, hi) in KINDS.items():
         for n, u, q in ([(2, 1, 2), (3, 2, 1), (3, 3, 0)] if not thorough else [(n, u, q) for n in (2, 3, 4) for u in (1, 2, 3, 7) for q in (0, 1, 2, 3)]):
